@@ -4,6 +4,7 @@ use crate::report::Ctx;
 pub mod c01;
 pub mod c03;
 pub mod c04;
+pub mod c06;
 pub mod c07;
 pub mod c08;
 pub mod c10;
@@ -21,6 +22,7 @@ pub fn run(prop: &str, ctx: &mut Ctx) -> bool {
         "C03" => c03::run(ctx),
         "C04" => c04::run(ctx),
         "C05" => reader_props::run_c05(ctx),
+        "C06" => c06::run(ctx),
         "C07" => c07::run(ctx),
         "C08" => c08::run(ctx),
         "C09" => reader_props::run_c09(ctx),
@@ -44,6 +46,7 @@ pub fn replay(prop: &str, ctx: &mut Ctx, file: &J) {
         "C01" => c01::replay(ctx, &case),
         "C03" => c03::replay(ctx, &case),
         "C04" => c04::replay(ctx, &case),
+        "C06" => c06::replay(ctx, &case),
         "C07" => c07::replay(ctx, &case),
         "C08" => c08::replay(ctx, &case),
         "C10" => c10::replay(ctx, &case),
